@@ -336,6 +336,89 @@ def compare_stats_threads(run, tmp):
                         run.fail(dict(i=10**6 + 200 + th, op='stats', threads=th), f'stats differ between 1 and {th} threads: {a} vs {b}',
                                  signature=dict(kind='stats-threads'))
 
+        # stats on a parameter image that has whole tiles without valid pixels *inside* its valid-data window (a hole in the source
+        # larger than a tile): such a tile's minimum / maximum is numpy's masked constant; every thread count and every completion
+        # order (the executor is replaced by one that completes the jobs in reverse, and in a shuffled order) gives the extremes of
+        # the valid pixels of the file
+        import rasters as _r
+        import rasterio as _rio
+        import homonim.stats as _hs
+        g_r = _r.Grid(8 * 6900, 8 * 2900, 16, 16, 48, 48)
+        g_s = _r.Grid(8 * 6900, 8 * 2900, 8, 8, 96, 96)
+        hrng = run.rng('stats-hole')
+        s2 = np.array([[[hrng.randint(20, 200) for _ in range(g_s.w)] for _ in range(g_s.h)]], float)
+        r2 = np.array([[[hrng.randint(30, 150) for _ in range(g_r.w)] for _ in range(g_r.h)]], float)
+        sv2 = np.ones((g_s.h, g_s.w), bool)
+        sv2[26:70, 26:70] = False
+        hp = fusion.write_pair(tmp, 'c04hole', g_s, g_r, s2, r2, sv2, None)
+        hbase = fusion.run_fuse(hp.src_path, hp.ref_path, tmp / 'c04_hole.tif', model='gain', kernel_shape=(3, 3), threads=1,
+                                param=True, out_profile=dict(creation_options=dict(tiled=True, blockxsize=16, blockysize=16)))
+        with _rio.open(hbase.param_path) as ds_:
+            arr_ = ds_.read(masked=True).astype('float64')
+        want_mm = [(float(arr_[b_].min()), float(arr_[b_].max())) for b_ in range(arr_.shape[0])]
+
+        class _Lazy:
+            """an executor that runs nothing until its futures are awaited - in the order `as_completed` chooses"""
+            jobs = {}
+
+            def __init__(self, *a, **k):
+                pass
+
+            def __enter__(self):
+                return self
+
+            def __exit__(self, *a):
+                return False
+
+            def submit(self, fn, *a, **k):
+                f = _hs.futures.Future.__new__(real_future)
+                real_future.__init__(f)
+                _Lazy.jobs[f] = (fn, a, k)
+                return f
+
+        def _as_completed(fs, *a, **k):
+            fs = list(fs)
+            if order == 'reverse':
+                fs.reverse()
+            else:
+                run.rng('stats-hole-order').shuffle(fs)
+            for f in fs:
+                fn, fa, fk = _Lazy.jobs.pop(f)
+                try:
+                    f.set_result(fn(*fa, **fk))
+                except BaseException as ex:
+                    f.set_exception(ex)
+                yield f
+        real_mod = _hs.futures
+        real_future = real_mod.Future
+
+        class _F:
+            Future = real_future
+            ThreadPoolExecutor = _Lazy
+            as_completed = staticmethod(_as_completed)
+        for label in ('threads=1', 'threads=2', 'threads=4', 'reverse', 'shuffled'):
+            if label.startswith('threads'):
+                with ParamStats(hbase.param_path) as ps:
+                    got_st = ps.stats(threads=int(label[-1]))
+            else:
+                order = label
+                _hs.futures = _F
+                try:
+                    with ParamStats(hbase.param_path) as ps:
+                        got_st = ps.stats(threads=2)
+                finally:
+                    _hs.futures = real_mod
+            run.evaluations += 1
+            run.hist['stats with empty tiles inside the data window'] += 1
+            run.nontrivial.add(('stats-hole', label))
+            for b_, (row, (mn, mx)) in enumerate(zip(got_st, want_mm)):
+                gmn, gmx = row['min'], row['max']
+                ok = isinstance(gmn, (int, float, np.floating)) and isinstance(gmx, (int, float, np.floating)) and \
+                    not np.ma.is_masked(gmn) and not np.ma.is_masked(gmx) and float(gmn) == mn and float(gmx) == mx
+                if not ok:
+                    run.fail(dict(i=10**6 + 500 + b_, op='stats', order=label), f'band {b_ + 1} ({label}): min / max reported {gmn!r} / {gmx!r}, '
+                             f'over the valid pixels of the file {mn!r} / {mx!r}', signature=dict(kind='stats-schedule', what='extremes'))
+                    break
         # compare on an image of more than a megabyte per band, processing grid forced to the finer image (there the statistics DO
         # depend on the partition - finding D7 - so that a partition that varies with the thread count shows in the result):
         # the partition is a matter of max_block_mem alone, the statistics are the same for 1, 2 and 4 threads
